@@ -28,6 +28,8 @@ func main() {
 		runCorpus(os.Args[2:], "c14")
 	case "corpus37":
 		runCorpus(os.Args[2:], "c37")
+	case "probe37":
+		runProbe37()
 	case "probe":
 		runProbe(os.Args[2:])
 	default:
